@@ -14,7 +14,7 @@ const (
 	SBool Sort = "Bool"
 )
 
-func SBV(w int) Sort { return Sort(fmt.Sprintf("(_ BitVec %d)", w)) }
+func SBV(w int) Sort      { return Sort(fmt.Sprintf("(_ BitVec %d)", w)) }
 func SArr(i, e Sort) Sort { return Sort("(Array " + string(i) + " " + string(e) + ")") }
 
 func (s Sort) IsBV() bool { return strings.HasPrefix(string(s), "(_ BitVec") }
